@@ -49,14 +49,18 @@ RAW_OK = ("pp", "pfe", "worker", "map", "itmap", "genpar", "itgen")
 _raw_rng = __import__("random").Random(20260928)
 
 
-def mk(construct, workers, buf, inp, cons, seed, procs):
+BADOPTS_OK = ("map", "itmap", "pp", "pfe", "worker", "genpar", "itgen")      # constructs that take WorkerGroupConf options
+NO_CLOSE_DURING_FIRST = {"bchan", "pp", "pfe", "worker", "chanread"}            # no output iterator with background goroutines
+
+
+def mk(construct, workers, buf, inp, cons, seed, procs, badopts=False):
     extra = []
     if construct in RAW_OK and workers == 1 and seed and seed % 7 == 0:
         # every seventh single-worker case installs the count through WorkerGroupConfSet with a value
         # below 1 ("all worker counts": such values are documented to become 1); model and oracle see 1
         extra = [["rawworkers", -(seed % 3)]]
     return C.sx(["pipe", ["construct", construct], ["workers", workers]] + extra + [["buf", buf], ["input"] + list(inp),
-                 ["consumer"] + list(cons), ["seed", seed], ["procs", procs]])
+                 ["consumer"] + list(cons)] + ([["badopts", 1]] if badopts else []) + [["seed", seed], ["procs", procs]])
 
 
 def cfg_of(line):
@@ -67,7 +71,8 @@ def cfg_of(line):
     return {"construct": d["construct"][0], "workers": int(d["workers"][0]), "buf": int(d["buf"][0]),
             "input": [int(x) for x in d.get("input", [])], "behaviour": d["consumer"][0],
             "k": int(d["consumer"][1]) if len(d["consumer"]) > 1 else 0,
-            "seed": int(d["seed"][0]), "procs": int(d["procs"][0])}
+            "seed": int(d["seed"][0]), "procs": int(d["procs"][0]),
+            "badopts": bool(d.get("badopts")) and int(d["badopts"][0]) != 0}
 
 
 def shapes(tier):
@@ -143,7 +148,8 @@ def parse_obs(obs):
         d[a[0]] = a[1:]
     return {"seen": [[int(x) for x in s] for s in d.get("seen", [])], "calls": [int(x) for x in d.get("calls", [])],
             "end": d.get("end", []), "after": (d.get("after") or ["none"])[0], "idem": (d.get("idem") or ["none"])[0],
-            "ret": (d.get("ret") or ["none"])[0], "released": (d.get("released") or ["none"])[0], "leak": d.get("leak", [])}
+            "ret": (d.get("ret") or ["none"])[0], "released": (d.get("released") or ["none"])[0],
+            "closeerr": (d.get("closeerr") or ["none"])[0], "leak": d.get("leak", [])}
 
 
 def ordered(cfg):
@@ -171,6 +177,11 @@ def delivery(cfg, o):
         extra = collections.Counter(o["calls"]) - collections.Counter(inp)
         return f"the user function was called with items the input does not contain / more than once: {sorted(extra.elements())[:8]}"
     beh = cfg["behaviour"]
+    if cfg["badopts"]:
+        # a rejected option set: the constructor closes its output / cancels its context; nothing may be delivered
+        if flat:
+            return f"items delivered although the option set was rejected: {flat[:8]}"
+        return None
     complete = beh in ("exhaust", "blockedclose", "blockedcancel")
     if beh in ("close", "closecancel", "cancel") and len(o["seen"]) == 1 and cfg["k"] > len(inp) and cfg["construct"] not in ("pp", "pfe", "worker"):
         complete = True        # asked for more than there is: the run ends by exhaustion
@@ -199,7 +210,28 @@ def termination(cfg, o, allow_known=False):
     if o["leak"]:
         return f"goroutines still alive inside the library after the consumer was done: {o['leak'][:4]}"
     n1 = len(o["seen"]) == 1
-    if beh == "exhaust":
+    if cfg["badopts"] and beh == "exhaust":
+        if any(e != "eof" for e in o["end"]):
+            return f"rejected option set: the consumer did not reach io.EOF at once: end={o['end']}"
+        if c in ("pp", "pfe", "worker"):
+            # observation (reported, not judged here: C04 is about termination): the worker returns
+            # opts.ErrorResolver() and drops the configuration error, so `ret` is nil today
+            if o["ret"] not in ("nil", "invalid"):
+                return f"worker returned {o['ret']} with a rejected option set"
+        elif o["closeerr"] != "invalid":
+            return f"Close reported {o['closeerr']} instead of the configuration error (ers.ErrInvalidInput)"
+    elif beh == "closeduringfirst":
+        if o["released"] != "1":
+            return f"the first advance did not return after the Close that landed inside it (released={o['released']}, end={o['end']})"
+        if o["idem"] != "1":
+            return "Close called during the first advance did not return"
+        if o["after"] != "eof":
+            return f"ReadOne after that Close returned {o['after']}, expected io.EOF"
+        if o["end"][0] not in ("ctx", "eof", "stop"):
+            return f"the first advance returned {o['end'][0]}"
+        if sum(map(len, o["seen"])) > 1:
+            return f"{sum(map(len, o['seen']))} items from one advance"
+    elif beh == "exhaust":
         if c == "chanread":
             if "eof" not in o["end"] or any(e not in ("eof", "ctx") for e in o["end"]):
                 return f"concurrent readers ended with {o['end']}"
@@ -223,7 +255,7 @@ def termination(cfg, o, allow_known=False):
             return f"consumer received {len(o['seen'][0])} items, expected {min(k, len(inp))}"
     elif beh == "cancel":
         if c in ("pp", "pfe", "worker"):
-            if o["ret"] not in ("nil", "ctx"):
+            if o["ret"] not in ("nil", "ctx") and not (cfg["badopts"] and o["ret"] == "invalid"):
                 return f"worker returned {o['ret']} after cancellation"
             if len(o["seen"][0]) < min(k, len(inp)):
                 return f"only {len(o['seen'][0])} items processed before the cancellation at {k}"
@@ -299,6 +331,10 @@ def features(line, obs):
         f.append("buf:%d" % cfg["buf"])
     if cfg["behaviour"] in ("close", "cancel", "closecancel"):
         f.append("cut:%d" % cfg["k"])
+    if cfg["badopts"]:
+        f.append("badopts:" + cfg["construct"])
+        if obs and "(ret nil)" in obs:
+            f.append("badopts-config-error-not-returned")
     return f
 
 
@@ -307,7 +343,7 @@ def shrink(line, fails):
 
     def rebuild(c):
         cons = [c["behaviour"]] + ([c["k"]] if c["behaviour"] in ("close", "cancel", "closecancel") else [])
-        return mk(c["construct"], c["workers"], c["buf"], c["input"], cons, c["seed"], c["procs"])
+        return mk(c["construct"], c["workers"], c["buf"], c["input"], cons, c["seed"], c["procs"], c.get("badopts", False))
     budget = 40
     changed = True
     while changed and budget > 0:
@@ -475,11 +511,15 @@ def run_tout(mod, tier, seed, replay=None):
         else:
             rep.note("the -race harness did not build (cgo unavailable?): " + rout[-200:])
 
+    # re-runs only shrink / confirm a failure the main pass established with the full deadlines
+    renv_short = dict(henv, VERIF_HANG_DEADLINE_MS=os.environ.get("VERIF_RERUN_HANG_DEADLINE_MS", "10000"),
+                      VERIF_LEAK_DEADLINE_MS=os.environ.get("VERIF_RERUN_LEAK_DEADLINE_MS", "5000"))
+
     def rerun(line, times):
         """re-run a case until it fails the oracle (schedule dependent failures) or `times` runs passed"""
         outs, batch = [], 1
         while len(outs) < times:
-            outs += C.run_lines(hbin, hargs, [line] * min(batch, times - len(outs)), timeout=600, env=henv)[0]
+            outs += C.run_lines(hbin, hargs, [line] * min(batch, times - len(outs)), timeout=600, env=renv_short)[0]
             if any(mod.predicate(line, o) for o in outs):
                 break
             batch *= 3
